@@ -245,11 +245,21 @@ func (x *explorer) deep(t *Term, st map[int]Val, depth int) *Term {
 	}
 	if t.Op == "addrvar" {
 		if v, ok := st[t.V.ID]; ok && v.T != nil {
+			if v.T.mentionsVar(t.V) {
+				// "what a call left behind this very pointer": one level only
+				return mk("addr", "", v.T)
+			}
 			return mk("addr", "", x.deep(v.T, st, depth+1))
 		}
 		return t
 	}
 	if len(t.Args) == 0 {
+		return t
+	}
+	switch t.Op {
+	case "call", "res", "outarg":
+		// inside a call the pointer keeps its placeholder: the key of a call must not
+		// depend on which locals happen to be live where it is printed
 		return t
 	}
 	args := make([]*Term, len(t.Args))
